@@ -163,7 +163,7 @@ def normalize_dt(chk):
 def dateparse(chk):
     I = serdes_interp(keep=("dateparse",))          # the recursive call is taken by contract (a function of its arguments)
     func = f"{SER}.dateparse"
-    names = ["a-leading-sign-negates-the-parse-of-the-rest",
+    names = ["a-leading-sign-negates-the-exact-microsecond-count-of-the-parse-of-the-rest",
              "time-targets-are-read-by-the-standard-library-first-which-keeps-the-offset",
              "otherwise-the-text-is-parsed-and-normalised-to-the-target-class",
              "only-all-digit-text-falls-back-to-the-epoch-reading-and-other-errors-surface"]
@@ -200,8 +200,12 @@ def dateparse(chk):
         parse_fails = z3.Or(z3.And(p_raises, sub(p_exc, VE)), z3.And(z3.Not(p_raises), n_raises))
         if out.kind == "ret":
             r = to_val(out.value)
+            # exact negation: the negated *integer* count of microseconds of the parse of the rest (negating the parsed
+            # pendulum.Duration itself goes through floats - fix 34f90b9's subject)
+            inner = exp_call("serdes.dateparse", [SV(rest), SCls(T)])
+            micros = uw.uf("exact_microseconds", 1)(inner)
             chk.add(Ob(func, names[0], pid, hy + [signed],
-                       r == exp_call("neg", [SV(exp_call("serdes.dateparse", [SV(rest), SCls(T)]))])))
+                       r == exp_call("datetime.timedelta", [], {"microseconds": SV(exp_call("neg", [SV(micros)]))})))
             chk.add(Ob(func, names[1], pid, hy + [z3.Not(signed), t_time, z3.Not(std_raises)], r == std))
             chk.add(Ob(func, names[2], pid, hy + [via_parse, z3.Not(p_raises), z3.Not(n_raises)], r == n_value))
             # a returned value on the fallback path: the text is all digits and the result mentions float(val) only
@@ -209,8 +213,12 @@ def dateparse(chk):
             mentions = fl.get_id() in {t.get_id() for t in _subterms(r)}
             chk.add(Ob(func, names[3], pid, hy + [via_parse, parse_fails], z3.And(digits, z3.BoolVal(bool(mentions)))))
         else:   # raise
+            # only the parse of the rest (or the timedelta constructor, which cannot for a negated in-range count) may raise
+            inner = exp_call("serdes.dateparse", [SV(rest), SCls(T)])
+            negm = exp_call("neg", [SV(uw.uf("exact_microseconds", 1)(inner))])
             chk.add(Ob(func, names[0], pid, hy + [signed],
-                       z3.Or(uw.uf("serdes.dateparse!raises", 2, BoolS)(rest, uw.lower(SCls(T))), z3.BoolVal(False))))
+                       z3.Or(uw.uf("serdes.dateparse!raises", 2, BoolS)(rest, uw.lower(SCls(T))),
+                             uw.uf("datetime.timedelta[microseconds]!raises", 1, BoolS)(negm))))
             # the stdlib reader's non-ValueError errors surface; a ValueError never does (it falls through to the parser)
             chk.add(Ob(func, names[1], pid, hy + [z3.Not(signed), t_time, z3.Not(std_raises)], z3.BoolVal(False), {"outcome": "raise"}))
             chk.add(Ob(func, names[2], pid, hy + [via_parse, z3.Not(p_raises), z3.Not(n_raises)], z3.BoolVal(False), {"outcome": "raise"}))
@@ -300,6 +308,12 @@ def leaf_marshallers(chk):
             T = path.fresh("T", Cls)
             val = path.fresh("val")
             t = SCls(T)
+            # precondition (the statement is about valid values): an enum routine gets a member of its enum, the pattern
+            # routine a compiled pattern - anything else is rejected (C06's clause)
+            if clsname == "EnumMarshaller":
+                path.assume(sub(cls_of(val), T))
+            if clsname == "PatternMarshaller":
+                path.assume(sub(cls_of(val), cls_const(re.Pattern)))
             me = rw.routine_self(I, MA, clsname, {"t": t, "origin": t, "context": rw.Ctx(path.fresh("ctx")), "var": None})
             return [me, SV(val)], {}, {"T": T, "val": val}
         for pi, (path, out, obls, writes, cur) in enumerate(I.run_function(func, mk)):
